@@ -996,6 +996,10 @@ class Interp:
             return list(it)
         if inspect.isclass(it) and issubclass(it, enum.Enum):
             return list(it)
+        from . import models_h5 as _h5
+
+        if isinstance(it, _h5.H5Node):
+            return _h5.members(self, it)
         if isinstance(it, (SV, DynV)) and self.lenient:
             it = Opaque("iterable")
         if isinstance(it, Opaque) and self.lenient:
